@@ -13,8 +13,127 @@ fn show<T: ToString + PartialEq>(
     }
 }
 
+// `l1.t1/l2.t2/...` (outermost first): a chain of nested RestrictViews; view j cuts l_j bytes before and
+// t_j bytes after its window out of view j-1 (view 0 = the whole allocation).
+fn parse_chain(spec: &str) -> Option<Vec<(usize, usize)>> {
+    let mut chain: Vec<(usize, usize)> = Vec::new();
+    for p in spec.split('/') {
+        let lt: Vec<&str> = p.split('.').collect();
+        if lt.len() != 2 {
+            return None
+        }
+        match (lt[0].parse::<usize>(), lt[1].parse::<usize>()) {
+            (Ok(l), Ok(t)) if l < 4096 && t < 4096 => chain.push((l, t)),
+            _ => return None,
+        }
+    }
+    Some(chain)
+}
+
+// the innermost view of a chain of nested RestrictViews whose window is exactly `buf`
+fn chain_buffer(buf: &[u8], chain: &[(usize, usize)]) -> Option<ParseBuffer> {
+    let mut big: Vec<u8> = Vec::new();
+    for (j, (l, _)) in chain.iter().enumerate() {
+        big.extend((0 .. *l).map(|i| 0xE0u8 ^ (j as u8) ^ ((i as u8) << 1)));
+    }
+    big.extend_from_slice(buf);
+    for (j, (_, t)) in chain.iter().enumerate().rev() {
+        big.extend((0 .. *t).map(|i| 0x70u8 ^ (j as u8) ^ ((i as u8) << 1)));
+    }
+    // window size of view j = everything inside it
+    let mut sizes = vec![buf.len(); chain.len()];
+    for j in (0 .. chain.len() - 1).rev() {
+        sizes[j] = chain[j + 1].0 + sizes[j + 1] + chain[j + 1].1;
+    }
+    let mut cur = ParseBuffer::new(big);
+    for (j, (l, _)) in chain.iter().enumerate() {
+        cur = RestrictView::new(*l, sizes[j]).transform(&cur).ok()?;
+    }
+    Some(cur)
+}
+
+// ONE parser object, owned by the returned closure: every call of the closure is a parse() on that same
+// object.  `arg` is the byte order (integer parsers) or the decimal length (ByteVecP).
+fn mk_parser(kind: &str, arg: &str) -> Option<Box<dyn FnMut(&mut ParseBuffer) -> String>> {
+    if kind == "bv" {
+        let len: usize = arg.parse().ok()?;
+        let mut p = ByteVecP::new(len);
+        return Some(Box::new(move |pb| match p.parse(pb) {
+            Ok(v) => format!("ok {} {} {} {}", hex(v.val()), v.start(), v.end(), pb.get_cursor()),
+            Err(e) => format!("err {} {}", errk(e.val()), pb.get_cursor()),
+        }))
+    }
+    let e = match arg {
+        "be" => Endian::Big,
+        "le" => Endian::Little,
+        _ => return None,
+    };
+    macro_rules! boxed {
+        ($p:expr) => {{
+            let mut p = $p;
+            Some(Box::new(move |pb: &mut ParseBuffer| {
+                let r = p.parse(pb);
+                show(r, pb)
+            }))
+        }};
+    }
+    match kind {
+        "u8" => boxed!(UInt8P),
+        "u16" => boxed!(UInt16P::new(e)),
+        "u32" => boxed!(UInt32P::new(e)),
+        "u64" => boxed!(UInt64P::new(e)),
+        "i8" => boxed!(Int8P),
+        "i16" => boxed!(Int16P::new(e)),
+        "i32" => boxed!(Int32P::new(e)),
+        "i64" => boxed!(Int64P::new(e)),
+        _ => None,
+    }
+}
+
+// `seq <kind> <be|le|len> <buf>[,<buf>...] <step>[,<step>...]`: REUSE of one parser object.
+// <buf> = `hex` or `hex@l1.t1/l2.t2/...` (the window of a chain of nested views); each buffer is built once and
+// keeps its cursor between steps.  <step> = `b:p`: apply the parser object to buffer number b, after
+// set_cursor(p) if p is a number, at the cursor the buffer has if p is `=`.  Output: the step results joined by `;`.
+fn run_seq(w: &[&str]) -> Option<String> {
+    if w.len() != 5 {
+        return None
+    }
+    let mut parser = mk_parser(w[1], w[2])?;
+    let mut bufs: Vec<ParseBuffer> = Vec::new();
+    for b in w[3].split(',') {
+        let (hx, chain) = match b.split_once('@') {
+            Some((h, c)) => (h, parse_chain(c)?),
+            None => (b, Vec::new()),
+        };
+        let bytes = unhex(hx);
+        bufs.push(if chain.is_empty() { ParseBuffer::new(bytes) } else { chain_buffer(&bytes, &chain)? });
+    }
+    let mut outs: Vec<String> = Vec::new();
+    for s in w[4].split(',') {
+        let (b, p) = s.split_once(':')?;
+        let b: usize = b.parse().ok()?;
+        if b >= bufs.len() {
+            return None
+        }
+        if p != "=" {
+            let p: usize = p.parse().ok()?;
+            if bufs[b].set_cursor(p).is_err() {
+                return None
+            }
+        }
+        outs.push(parser(&mut bufs[b]));
+    }
+    if outs.is_empty() {
+        return None
+    }
+    Some(outs.join(";"))
+}
+
 pub fn run(line: &str) -> String {
     let w: Vec<&str> = line.split_whitespace().collect();
+    if !w.is_empty() && w[0] == "seq" {
+        return run_seq(&w).unwrap_or_else(|| "bad-case".to_string())
+    }
     if w.len() != 4 && w.len() != 5 {
         return "bad-case".to_string()
     }
@@ -24,51 +143,23 @@ pub fn run(line: &str) -> String {
         Err(_) => return "bad-case".to_string(),
     };
     // Optional fifth word `@l1.t1/l2.t2/...` (outermost first): the parser runs on the innermost of a chain
-    // of nested RestrictViews whose window is exactly `buf`; view j cuts l_j bytes before and t_j bytes after
-    // its window out of view j-1 (view 0 = the whole allocation).
+    // of nested RestrictViews whose window is exactly `buf`.
     let mut chain: Vec<(usize, usize)> = Vec::new();
     if w.len() == 5 {
-        let spec = match w[4].strip_prefix('@') {
-            Some(s) => s,
+        chain = match w[4].strip_prefix('@').and_then(parse_chain) {
+            Some(c) => c,
             None => return "bad-case".to_string(),
         };
-        for p in spec.split('/') {
-            let lt: Vec<&str> = p.split('.').collect();
-            if lt.len() != 2 {
-                return "bad-case".to_string()
-            }
-            match (lt[0].parse::<usize>(), lt[1].parse::<usize>()) {
-                (Ok(l), Ok(t)) if l < 4096 && t < 4096 => chain.push((l, t)),
-                _ => return "bad-case".to_string(),
-            }
-        }
     }
     // A kind prefixed with 'v' runs the same parser on a RESTRICTED VIEW whose window is exactly
     // `buf` inside a larger allocation (3 bytes before, 2 after): by C17 a view behaves like a
     // copy of its window, so the expected output is the same as on the plain buffer.
     let (kind, mut pb) = if !chain.is_empty() {
         let kind = if w[0].starts_with('v') { &w[0][1 ..] } else { w[0] };
-        let mut big: Vec<u8> = Vec::new();
-        for (j, (l, _)) in chain.iter().enumerate() {
-            big.extend((0 .. *l).map(|i| 0xE0u8 ^ (j as u8) ^ ((i as u8) << 1)));
+        match chain_buffer(&buf, &chain) {
+            Some(cur) => (kind, cur),
+            None => return "bad-case".to_string(),
         }
-        big.extend_from_slice(&buf);
-        for (j, (_, t)) in chain.iter().enumerate().rev() {
-            big.extend((0 .. *t).map(|i| 0x70u8 ^ (j as u8) ^ ((i as u8) << 1)));
-        }
-        // window size of view j = everything inside it
-        let mut sizes = vec![buf.len(); chain.len()];
-        for j in (0 .. chain.len() - 1).rev() {
-            sizes[j] = chain[j + 1].0 + sizes[j + 1] + chain[j + 1].1;
-        }
-        let mut cur = ParseBuffer::new(big);
-        for (j, (l, _)) in chain.iter().enumerate() {
-            cur = match RestrictView::new(*l, sizes[j]).transform(&cur) {
-                Ok(v) => v,
-                Err(_) => return "bad-case".to_string(),
-            };
-        }
-        (kind, cur)
     } else if w[0].starts_with('v') {
         let mut big = vec![0xEEu8, 0x11, 0xEE];
         let n = buf.len();
@@ -86,32 +177,10 @@ pub fn run(line: &str) -> String {
     if pb.set_cursor(pos).is_err() {
         return "bad-case".to_string()
     }
-    if kind == "bv" {
-        let len: usize = match w[1].parse() {
-            Ok(l) => l,
-            Err(_) => return "bad-case".to_string(),
-        };
-        let r = ByteVecP::new(len).parse(&mut pb);
-        return match r {
-            Ok(v) => format!("ok {} {} {} {}", hex(v.val()), v.start(), v.end(), pb.get_cursor()),
-            Err(e) => format!("err {} {}", errk(e.val()), pb.get_cursor()),
-        }
-    }
-    let e = match w[1] {
-        "be" => Endian::Big,
-        "le" => Endian::Little,
-        _ => return "bad-case".to_string(),
-    };
-    match kind {
-        "u8" => show(UInt8P.parse(&mut pb), &pb),
-        "u16" => show(UInt16P::new(e).parse(&mut pb), &pb),
-        "u32" => show(UInt32P::new(e).parse(&mut pb), &pb),
-        "u64" => show(UInt64P::new(e).parse(&mut pb), &pb),
-        "i8" => show(Int8P.parse(&mut pb), &pb),
-        "i16" => show(Int16P::new(e).parse(&mut pb), &pb),
-        "i32" => show(Int32P::new(e).parse(&mut pb), &pb),
-        "i64" => show(Int64P::new(e).parse(&mut pb), &pb),
-        _ => "bad-case".to_string(),
+    // a fresh parser object, used once
+    match mk_parser(kind, w[1]) {
+        Some(mut p) => p(&mut pb),
+        None => "bad-case".to_string(),
     }
 }
 
